@@ -1146,3 +1146,166 @@ Proof.
     destruct (args_nonempty_ok _ _ _ _ F0 H1 H2 f' p X HF Hn) as [p' E']. unfold args_toks. cbn [map].
     eexists. exists p'. split; [exact E' | exact B].
 Qed.
+
+(* ====================== return types and function declarations ====================== *)
+Definition PAIR_AND : gexpr :=
+  GAnd [GAnd [GAnd [GAnd [GAnd [GAnd [GSup (GOpt (GTerm (TLit "std::"))); GSup (GTerm (TKw "pair"))]; GSup (GTerm (TLit "<"))];
+                          GName "type1" (GRef "Type")]; GSup (GTerm (TLit ","))]; GName "type2" (GRef "Type")]; GSup (GTerm (TLit ">"))].
+Definition RT_BODY : gexpr := GOr [PAIR_AND; GName "type1" TY].
+Lemma lookup_ReturnType : lookup g "ReturnType" = Some RT_BODY. Proof. reflexivity. Qed.
+
+(* a literal that is not made of identifier characters does not start a word *)
+Lemma lit_fail_word : forall f p (l : string) h r, word h -> boundary r ->
+  ~ In " "%char (chars_of l) -> (exists c, In c (chars_of l) /\ in_str alnum_ c = false) ->
+  interp g (S f) (GTerm (TLit l)) {| pk := p; rest := sp h r |} = Fail.
+Proof.
+  intros f p l h r [Hne Hw] Hr Hnb [c [Hc Hna]]. rewrite i_term. unfold run_term. cbn [pre_term].
+  destruct h as [|h0 h']; [contradiction|].
+  assert (Hs : solid h0 = true) by (cbn [forallb] in Hw; apply andb_true_iff in Hw; apply alnum_solid; tauto).
+  rewrite (pre_sp p h0 h' r Hs). cbn [rest].
+  destruct (prefix (chars_of l) ((h0 :: h') ++ r)) as [x|] eqn:P; [|reflexivity]. exfalso.
+  destruct (prefix_word (chars_of l) (h0 :: h') r x Hr Hw (safe_nospace _ _ Hnb) P) as [n2 [E _]].
+  rewrite forallb_forall in Hw. assert (Hin : In c (h0 :: h')) by (rewrite E; apply in_or_app; left; exact Hc).
+  rewrite (Hw c Hin) in Hna. discriminate.
+Qed.
+
+Definition kpair : chars := chars_of "pair".
+Definition rt_value (t : ty) : value := VNode "ReturnType" [(["type1"%string], ty_value t)].
+
+(* the head of a type: its first token, an identifier or one of the basic keywords *)
+Definition head_word (toks : list chars) : Prop := exists h rest, toks = h :: rest /\ word h /\ h <> kpair.
+
+Lemma no_blank_std : ~ In " "%char (chars_of "std::"). Proof. vm_compute. intuition discriminate. Qed.
+Lemma no_blank_pair : ~ In " "%char (chars_of "pair"). Proof. vm_compute. intuition discriminate. Qed.
+Lemma std_has_colon : exists c, In c (chars_of "std::") /\ in_str alnum_ c = false.
+Proof. exists ":"%char. split; [vm_compute; tauto | reflexivity]. Qed.
+
+Lemma pair_alt_fails : forall f p h r, word h -> boundary r -> h <> kpair ->
+  interp g (S (S (S (S (S (S (S (S (S f))))))))) PAIR_AND {| pk := p; rest := sp h r |} = Fail.
+Proof.
+  intros f p h r Hw B Hk. unfold PAIR_AND.
+  rewrite i_and, seq_cons, i_and, seq_cons, i_and, seq_cons, i_and, seq_cons, i_and, seq_cons, i_and, seq_cons, i_sup, i_opt.
+  rewrite (lit_fail_word f p "std::" h r Hw B no_blank_std std_has_colon).
+  rewrite seq_cons, i_sup.
+  rewrite (kw_word_fail (S f) p "pair" h r Hw B (safe_nospace _ _ no_blank_pair)); [reflexivity|].
+  intros X. apply Hk. symmetry. exact X.
+Qed.
+
+Lemma rt_single_ok : forall F0 toks v, parses F0 toks v -> head_word toks ->
+  forall f p r, follow r -> F0 <= f ->
+  exists p', interp g (11 + f) (GRef "ReturnType") {| pk := p; rest := render toks r |}
+             = Match [([], VNode "ReturnType" [(["type1"%string], v)])] {| pk := p'; rest := r |}.
+Proof.
+  intros F0 toks v Hp [h [rest' [E [Hw Hk]]]] f p r Hr Hf. cbn [Nat.add].
+  rewrite (i_ref _ _ "ReturnType" RT_BODY lookup_ReturnType). unfold RT_BODY. rewrite i_or. cbn [alt_longest].
+  assert (B : boundary (render rest' r)) by (apply render_boundary, follow_boundary; exact Hr).
+  pose proof (pair_alt_fails f p h (render rest' r) Hw B Hk) as PF.
+  subst toks. change (render (h :: rest') r) with (sp h (render rest' r)). rewrite PF. rewrite i_name.
+  change (sp h (render rest' r)) with (render (h :: rest') r).
+  destruct (Hp (S (S (S (S (S (S (S (S f)))))))) p r Hr ltac:(lia)) as [p1 E1]. rewrite E1. cbn [map add_name fst snd]. eexists. reflexivity.
+Qed.
+
+(* ---- GlobalFunction ---- *)
+Definition TEMPLATE_BODY : gexpr :=
+  GAnd [GAnd [GAnd [GTerm (TKw "template"); GSup (GTerm (TLit "<"))];
+              GName "typename_and_instantiations_list"
+                    (GAnd [GRef "Template.TypenameAndInstantiations"; GStar (GAnd [GSup (GTerm (TLit ",")); GRef "Template.TypenameAndInstantiations"])])];
+        GSup (GTerm (TLit ">"))].
+Lemma lookup_Template : lookup g "Template" = Some TEMPLATE_BODY. Proof. reflexivity. Qed.
+Definition TEMPLATE_OPT : gexpr := GOpt (GName "template" (GRef "Template")).
+Definition FN_BODY : gexpr :=
+  GAnd [GAnd [GAnd [GAnd [GAnd [GAnd [TEMPLATE_OPT; GName "return_type" (GRef "ReturnType")]; GName "name" IDENT];
+                          GSup (GTerm (TLit "("))]; GName "args_list" (GRef "ArgumentList")]; GSup (GTerm (TLit ")"))];
+        GSup (GTerm (TLit ";"))].
+Lemma lookup_GlobalFunction : lookup g "GlobalFunction" = Some FN_BODY. Proof. reflexivity. Qed.
+
+Definition ktemplate : chars := chars_of "template".
+Lemma no_blank_template : ~ In " "%char (chars_of "template"). Proof. vm_compute. intuition discriminate. Qed.
+
+Lemma template_opt_none : forall f p h r, word h -> boundary r -> h <> ktemplate ->
+  interp g (S (S (S (S (S (S (S f))))))) TEMPLATE_OPT {| pk := p; rest := sp h r |} = Match [] {| pk := p; rest := sp h r |}.
+Proof.
+  intros f p h r Hw B Hk. unfold TEMPLATE_OPT. rewrite i_opt, i_name, (i_ref _ _ "Template" TEMPLATE_BODY lookup_Template).
+  unfold TEMPLATE_BODY. rewrite i_and, seq_cons, i_and, seq_cons, i_and, seq_cons.
+  rewrite (kw_word_fail f p "template" h r Hw B (safe_nospace _ _ no_blank_template)); [reflexivity|].
+  intros X. apply Hk. symmetry. exact X.
+Qed.
+
+Definition lparen : chars := ["("%char].
+Definition semi : chars := [";"%char].
+Definition fn_toks (t : ty) (name : string) (args : list (ty * string)) : list chars :=
+  ty_toks t ++ [chars_of name] ++ [lparen] ++ args_toks args ++ [rparen] ++ [semi].
+Definition fn_fuel (t : ty) (args : list (ty * string)) : nat := 30 + fuel_of t + args_fuel args.
+
+Definition wf_head (t : ty) : Prop := exists h rest, ty_toks t = h :: rest /\ word h /\ h <> kpair /\ h <> ktemplate.
+
+Lemma fn_items_lookup : forall rv n va,
+  let its := [(["return_type"%string], rv); (["name"%string], VStr n); (["args_list"%string], va)] in
+  first_named "template" its = None /\ first_named "name" its = Some (VStr n) /\
+  first_named "return_type" its = Some rv /\ first_named "args_list" its = Some va.
+Proof. intros. repeat split; reflexivity. Qed.
+
+Lemma b_ret_single : forall tv t, b_type tv = Ok t -> b_ret (VNode "ReturnType" [(["type1"%string], tv)]) = Ok (RSingle t).
+Proof.
+  intros tv t H. unfold b_ret.
+  change (named "type1" [(["type1"%string], tv)]) with [tv]. change (named "type2" [(["type1"%string], tv)]) with (@nil value).
+  cbn iota. rewrite H. reflexivity.
+Qed.
+
+Lemma b_decl_function : forall k rv n va r a, b_ret rv = Ok r -> b_args va = Ok a ->
+  b_decl (S k) (VNode "GlobalFunction" [(["return_type"%string], rv); (["name"%string], VStr n); (["args_list"%string], va)])
+  = Ok (DFun {| f_tmpl := None; f_name := n; f_ret := r; f_args := a |}).
+Proof.
+  intros k rv n va r a Hr Ha. cbn [b_decl].
+  change (String.eqb "GlobalFunction" "Class") with false. change (String.eqb "GlobalFunction" "GlobalFunction") with true. cbn iota.
+  destruct (fn_items_lookup rv n va) as [E1 [E2 [E3 E4]]]. unfold b_tmpl, name_of, ret_of, args_of. rewrite E1, E2, E3, E4.
+  cbn [bind]. rewrite Hr. cbn [bind]. rewrite Ha. reflexivity.
+Qed.
+
+Fixpoint Sn (n f : nat) : nat := match n with O => f | S k => S (Sn k f) end.
+
+Theorem function_roundtrip : forall t name args, wf_ty t -> depth t < depth_fuel -> wf_head t ->
+  is_ident (chars_of name) = true -> Forall wf_arg args ->
+  forall p R f, fn_fuel t args <= f ->
+  exists v p', interp g f (GRef "GlobalFunction") {| pk := p; rest := render (fn_toks t name args) R |}
+               = Match [([], v)] {| pk := p'; rest := R |}
+               /\ b_decl depth_fuel v = Ok (DFun {| f_tmpl := None; f_name := name; f_ret := RSingle t; f_args := map mk_arg args |}).
+Proof.
+  intros t name args Hw Hd [h [rest' [Eh [Hwh [Hkp Hkt]]]]] Hn Ha p R f Hf. unfold fn_fuel in Hf.
+  assert (X : exists f', f = 20 + f' /\ fuel_of t <= f' /\ args_fuel args <= f') by (exists (f - 20); lia).
+  destruct X as [f' [E [Hft Hfa]]]. subst f. cbn [Nat.add].
+  rewrite (i_ref _ _ "GlobalFunction" FN_BODY lookup_GlobalFunction). unfold FN_BODY.
+  rewrite i_and, seq_cons, i_and, seq_cons, i_and, seq_cons, i_and, seq_cons, i_and, seq_cons, i_and, seq_cons.
+  unfold fn_toks. rewrite !render_app.
+  change (render [chars_of name] ?x) with (sp (chars_of name) x). change (render [lparen] ?x) with (sp lparen x).
+  change (render [rparen] ?x) with (sp rparen x). change (render [semi] ?x) with (sp semi x).
+  set (AFTER := sp semi R). set (ARGS := render (args_toks args) (sp rparen AFTER)).
+  set (NAME := sp (chars_of name) (sp lparen ARGS)).
+  (* optional template: absent *)
+  rewrite Eh. change (render (h :: rest') NAME) with (sp h (render rest' NAME)).
+  assert (Fn : follow NAME) by (apply follow_ident; exact Hn).
+  assert (B : boundary (render rest' NAME)) by (apply render_boundary, follow_boundary; exact Fn).
+  rewrite (template_opt_none _ p h _ Hwh B Hkt). cbn [app]. rewrite seq_cons, i_name.
+  change (sp h (render rest' NAME)) with (render (h :: rest') NAME). rewrite <- Eh.
+  (* return type *)
+  assert (HP : parses (fuel_of t) (ty_toks t) (ty_value t)) by (apply (ty_parses (S (depth t))); [apply Nat.lt_succ_diag_r | exact Hw]).
+  assert (HH : head_word (ty_toks t)) by (exists h, rest'; split; [exact Eh | split; [exact Hwh | exact Hkp]]).
+  destruct (rt_single_ok (fuel_of t) (ty_toks t) (ty_value t) HP HH (S f') p NAME Fn ltac:(lia)) as [p1 E1].
+  cbn [Nat.add] in E1. rewrite E1. cbn [map add_name fst snd app]. rewrite seq_nil. cbn [app]. rewrite seq_cons, i_name.
+  (* name *)
+  assert (Bl : boundary (sp lparen ARGS)) by (right; eexists; reflexivity).
+  unfold NAME. destruct (IDENT_ok (Sn 11 f') p1 (chars_of name) (sp lparen ARGS) Hn Bl) as [p2 E2]. cbn [Sn] in E2. rewrite E2.
+  cbn [map add_name fst snd]. rewrite seq_nil. cbn [app]. rewrite seq_cons, i_sup.
+  (* ( args ) ; *)
+  destruct (lit1_at (Sn 13 f') p2 "("%char ARGS eq_refl) as [p3 E3]. cbn [Sn] in E3. change (sp ["("%char] ARGS) with (sp lparen ARGS) in E3. rewrite E3, seq_nil. cbn [app].
+  rewrite seq_cons, i_name. unfold ARGS.
+  destruct (arglist_roundtrip args Ha p3 AFTER (Sn 15 f') ltac:(cbn [Sn]; lia)) as [va [p4 [E4 B4]]].
+  cbn [Sn] in E4. rewrite E4. cbn [map add_name fst snd]. rewrite seq_nil. cbn [app]. rewrite seq_cons, i_sup.
+  destruct (lit1_at (Sn 15 f') p4 ")"%char AFTER eq_refl) as [p5 E5]. cbn [Sn] in E5. change (sp [")"%char] AFTER) with (sp rparen AFTER) in E5. rewrite E5, seq_nil. cbn [app].
+  rewrite seq_cons, i_sup. unfold AFTER.
+  destruct (lit1_at (Sn 16 f') p5 ";"%char R eq_refl) as [p6 E6]. cbn [Sn] in E6. change (sp [";"%char] R) with (sp semi R) in E6. rewrite E6, seq_nil. cbn [app].
+  eexists. exists p6. split; [reflexivity|].
+  (* the node constructors *)
+  rewrite string_chars. unfold depth_fuel. apply b_decl_function; [|exact B4].
+  apply b_ret_single. unfold b_type. apply (ty_rebuilt depth_fuel t Hd Hw).
+Qed.
